@@ -237,6 +237,8 @@ def run(ctx):
         seen_f.add(f)
         for why, node in _late_binding(f.node):
             ctx.viol("N6", f, node, why)
+        for why, node in _loop_variable_leaks(f.node):
+            ctx.viol("N6", f, node, why)
         ctx.inst("N6", f, f.qual, "no deferred computation captures a loop-rebound variable")
     if ctx.extra.get("N7_unfollowed") and not ctx.findings:
         raise AnalysisError("C04 N7: " + "; ".join(ctx.extra["N7_unfollowed"][:2]))
@@ -371,3 +373,44 @@ def _expand_defs(cfgnode, expr, depth=4):
                     return _expand_defs(ds[0], copy.deepcopy(ds[0].ast.value), depth - 1)
             return node
     return R().visit(copy.deepcopy(expr))
+
+
+def _loop_variable_leaks(fnode):
+    """a `for` target read after its loop (without being rebound) although the loop body did real work: the code goes on
+    with the LAST element only (the pure counting idiom `for n, _ in enumerate(x): continue` is exempt)"""
+    out = []
+
+    def scan(stmts):
+        for i, st in enumerate(stmts):
+            for field in ("body", "orelse", "finalbody"):
+                blk = getattr(st, field, None)
+                if isinstance(blk, list) and blk and isinstance(blk[0], ast.stmt):
+                    scan(blk)
+            if isinstance(st, ast.Try):
+                for h in st.handlers:
+                    scan(h.body)
+            if not isinstance(st, ast.For):
+                continue
+            trivial = all(isinstance(b, (ast.Pass, ast.Continue)) for b in st.body)
+            if trivial:
+                continue
+            targets = {x.id for x in ast.walk(st.target) if isinstance(x, ast.Name)}
+            for later in stmts[i + 1:]:
+                stores = {x.id for x in ast.walk(later) if isinstance(x, ast.Name) and isinstance(x.ctx, ast.Store)}
+                # reads that happen before any rebinding inside this later statement (approximation: statement level)
+                for x in ast.walk(later):
+                    if isinstance(x, ast.Name) and isinstance(x.ctx, ast.Load) and x.id in targets:
+                        # a nested loop / comprehension of its own over the same name rebinds it first
+                        rebinding = [c for c in ast.walk(later) if isinstance(c, (ast.For, ast.comprehension))
+                                     and any(isinstance(t, ast.Name) and t.id == x.id for t in ast.walk(c.target))
+                                     and any(y is x for y in ast.walk(c))]
+                        if rebinding:
+                            continue
+                        out.append(("`%s` is the variable of the loop at line %d and is read after that loop ended: only the LAST "
+                                    "element is used there (a leaked loop variable)" % (x.id, st.lineno), x))
+                        targets = targets - {x.id}
+                targets = targets - stores
+                if not targets:
+                    break
+    scan(fnode.body)
+    return out
